@@ -199,7 +199,7 @@ def execute(scen, scratch):
     verdicts = []
     texts = []
     runs = 0
-    triples = [gen.T(t) for t in scen["graph"]]
+    triples = _scale_graph(scen["scale"]) if scen.get("scale") else [gen.T(t) for t in scen["graph"]]
     nt = gen.to_nt(triples)
     capped = "instances_cap" in scen["options"]
     with sim:
@@ -308,9 +308,27 @@ def execute(scen, scratch):
 
 # ---------------------------------------------------------------------------
 
+def _scale_graph(spec):
+    """`instances` target nodes with `values` integer values each, plus one incoming link per target node from a node
+    that is not a target: the endpoint cache has to hold instances x values triples within one Shaper."""
+    triples = []
+    for i in range(spec["instances"]):
+        a = gen.iri(gen.EX + "a%d" % i)
+        triples.append((a, gen.iri(gen.RDF_TYPE), gen.iri(gen.EX + "A")))
+        for j in range(spec["values"]):
+            triples.append((a, gen.iri(gen.EX + "p"), gen.lit(str(i * spec["values"] + j), gen.XSD + "integer")))
+        triples.append((gen.iri(gen.EX + "b%d" % i), gen.iri(gen.EX + "employs"), a))
+    return triples
+
+
 def extra_scenarios(tier, base):
-    """one outage / one transient burst at every query index of sampled runs"""
+    """one outage / one transient burst at every query index of sampled runs; scale: a cache of > 100 000 triples"""
     out = []
+    for (ni, nv) in ([(40, 60)] if tier == "quick" else [(40, 60), (120, 300), (300, 420)]):
+        out.append(("scale-%dx%d" % (ni, nv), {
+            "config": "fault_free", "scale": {"instances": ni, "values": nv}, "graph": [],
+            "target": {"target_classes": [gen.EX + "A"]}, "options": {"instances_report_mode": "mixed", "inverse_paths": True},
+            "ns": dict(gen.BASE_NS), "row_seed": 7, "cache_primary": True, "faults": []}))
     n_hist = 2 if tier == "quick" else 120
     for h in range(n_hist):
         rng = random.Random("C15-sweep:%s:%s" % (base, h))
